@@ -24,7 +24,30 @@ FAULTS = [
     ("MyErr", "raise MyErr('custom {t}')"),
     ("RuntimeError", "raise RuntimeError('chained {t}') from ValueError('cause')"),
     ("AssertionError", "assert 1 == 2, 'assert {t}'"),
+    ("LookupError-from-none", "try:\n    zz = int('x')\nexcept ValueError:\n    raise LookupError('translated {t}') from None"),
+    ("LookupError-from-err", "try:\n    zz = int('x')\nexcept ValueError as err:\n    raise LookupError('translated {t}') from err"),
+    ("LookupError-context", "try:\n    zz = {{}}['k{t}']\nexcept KeyError:\n    raise LookupError('while handling {t}')"),
 ]
+
+MOD_FNAME = "modules/c18lib.py"
+MOD_SRC = """
+def relay(cb, n):
+    x = n
+    return cb(x)
+
+class Meter:
+    def __init__(self, k):
+        self.k = k
+
+    def read(self, cb, n):
+        y = n + self.k
+        return cb(y)
+
+def scale(n):
+    if n >= 0:
+        raise ArithmeticError('scale ' + str(n))
+    return n
+"""
 
 
 def gen_program(R):
@@ -38,9 +61,10 @@ def gen_program(R):
     if use_deco:
         L += ["def deco(f):", "    def wrapper(*a, **k):", "        pre = 1", "        return f(*a, **k)", "    return wrapper", ""]
     use_class = R.bool(1, 3)
+    use_mod = R.bool(1, 3)
     for d in range(depth - 1, -1, -1):
         last = d == depth - 1
-        style = R.choice(["plain", "plain", "multiline", "comp", "method"]) if not last else "leaf"
+        style = R.choice(["plain", "plain", "multiline", "comp", "method"] + (["relay", "meter"] if use_mod else []) + ["recurse"]) if not last else "leaf"
         if style == "method" and not use_class:
             style = "plain"
         styles.append(style)
@@ -56,7 +80,10 @@ def gen_program(R):
         body = []
         for _ in range(R.int(0, 2)):
             body.append(R.choice(["a = n + 1", "b = [n, n]", "if n > 100:\n        pass", "c = {'k': n}"]))
-        if last:
+        if last and use_mod and R.bool(1, 4):
+            body.append("return scale(n)")
+            fault_i = -1
+        elif last:
             body.append(FAULTS[fault_i][1].format(t=d))
         else:
             nxt = f"K{d + 1}().m(n + 1)" if styles and False else None
@@ -65,6 +92,13 @@ def gen_program(R):
                 body.append("r = (n +\n         1 +\n         " + callee + "\n         + 2)")
             elif style == "comp":
                 body.append(f"r = [{callee} for q in [1]]")
+            elif style == "relay":
+                body.append(f"r = relay(f{d + 1}, n + 1)")
+            elif style == "meter":
+                body.append(f"r = Meter(2).read(f{d + 1}, n)")
+            elif style == "recurse":
+                # the function calls itself twice before going on: equal consecutive (file, function) frames
+                body.append(f"if n < 1000:\n    return f{d}(n + 1000)\nr = {callee}")
             else:
                 body.append(f"r = {callee}")
             body.append("return r")
@@ -76,45 +110,95 @@ def gen_program(R):
         L.append("")
     L.append("entry_result = None")
     L.append("entry_result = f0(0)")
-    return "\n".join(L), {"fault": FAULTS[fault_i][0], "depth": depth, "deco": use_deco}
+    return "\n".join(L), {"fault": FAULTS[fault_i][0] if fault_i >= 0 else "module-ArithmeticError", "depth": depth, "deco": use_deco, "mod": use_mod,
+                           "recurse": "recurse" in styles}
 
 
-def cpython_frames(src):
-    g = {"__name__": "script"}
-    try:
-        exec(compile(src, FNAME, "exec"), g)  # noqa: S102
-    except Exception as e:  # noqa: BLE001
-        chain = []
-        exc = e
-        frames = [(f.name, f.lineno) for f in traceback.extract_tb(exc.__traceback__) if f.filename == FNAME]
-        return type(e).__name__, str(e), frames
-    return None, None, []
-
-
+FILES = (FNAME, MOD_FNAME)
+CTX_NAME = "file.script_under_test"
+SEP_RE = re.compile(r"\n(The above exception was the direct cause of the following exception:|During handling of the above exception, another exception occurred:)\n")
 FRAME_RE = re.compile(r'File "([^"]+)", line (\d+), in (.+)')
 
 
-async def pyscript_frames(src):
+def norm_frames(frames):
+    """(file, function, line) triples of script frames; the module-level frame is identified by its file only."""
+    out = []
+    for fn, name, line in frames:
+        if fn not in FILES:
+            continue
+        if fn == FNAME and name in ("<module>", CTX_NAME):
+            name = "<module>"
+        out.append([fn, name, line])
+    return out
+
+
+def cpython_report(src, use_mod):
+    g = {"__name__": "script"}
+    if use_mod:
+        gm = {"__name__": "c18lib"}
+        exec(compile(MOD_SRC, MOD_FNAME, "exec"), gm)  # noqa: S102
+        g.update({k: gm[k] for k in ("relay", "Meter", "scale")})
+    try:
+        exec(compile(src, FNAME, "exec"), g)  # noqa: S102
+    except Exception as e:  # noqa: BLE001
+        parts = []
+        exc = e
+        while exc is not None:
+            frames = norm_frames([(f.filename, f.name, f.lineno) for f in traceback.extract_tb(exc.__traceback__)])
+            if exc.__cause__ is not None:
+                link, nxt = "cause", exc.__cause__
+            elif exc.__context__ is not None and not exc.__suppress_context__:
+                link, nxt = "context", exc.__context__
+            else:
+                link, nxt = None, None
+            parts.append({"type": type(exc).__name__, "frames": frames, "link": link})
+            exc = nxt
+        return {"type": type(e).__name__, "message": str(e), "chain": parts[::-1]}
+    return {"type": None, "message": None, "chain": []}
+
+
+async def pyscript_report(src, use_mod):
     from custom_components.pyscript.eval import AstEval, EvalExceptionFormatter
     from custom_components.pyscript.function import Function
     from custom_components.pyscript.global_ctx import GlobalContext, GlobalContextMgr
 
-    gctx = GlobalContext("file.script_under_test", global_sym_table={"__name__": "script"}, manager=GlobalContextMgr)
+    sym = {"__name__": "script"}
+    if use_mod:
+        mctx = GlobalContext("modules.c18lib", global_sym_table={"__name__": "c18lib"}, manager=GlobalContextMgr)
+        mctx.file_path = MOD_FNAME
+        mctx.source = MOD_SRC
+        m_ast = AstEval("modules.c18lib", mctx)
+        Function.install_ast_funcs(m_ast)
+        m_ast.parse(MOD_SRC, filename=MOD_FNAME)
+        await m_ast.eval()
+        sym.update({k: mctx.global_sym_table[k] for k in ("relay", "Meter", "scale")})
+    gctx = GlobalContext(CTX_NAME, global_sym_table=sym, manager=GlobalContextMgr)
     gctx.file_path = FNAME
     gctx.source = src
-    ast_ctx = AstEval("file.script_under_test", gctx)
+    ast_ctx = AstEval(CTX_NAME, gctx)
     Function.install_ast_funcs(ast_ctx)
     try:
         ast_ctx.parse(src, filename=FNAME)
         await ast_ctx.eval()
     except Exception as e:  # noqa: BLE001
         text = "".join(EvalExceptionFormatter(e).format())
-        # only the frames of the final exception (after the last chaining separator)
-        parts = re.split(r"\n(?:The above exception was the direct cause of the following exception:|During handling of the above exception, another exception occurred:)\n", text)
-        last = parts[-1]
-        frames = [(m.group(3).strip(), int(m.group(2))) for m in FRAME_RE.finditer(last) if m.group(1) == FNAME]
-        return type(e).__name__, str(e), frames, text
-    return None, None, [], ""
+        pieces = SEP_RE.split(text)
+        parts = []
+        for k in range(0, len(pieces), 2):
+            body = pieces[k]
+            frames = norm_frames([(m.group(1), m.group(3).strip(), int(m.group(2))) for m in FRAME_RE.finditer(body)])
+            last_line = [ln for ln in body.strip().splitlines() if ln and not ln.startswith(" ")]
+            tname = re.match(r"([\w.]+)", last_line[-1]).group(1).split(".")[-1] if last_line else None
+            link = None
+            if k + 1 < len(pieces):
+                link = "cause" if pieces[k + 1].startswith("The above exception was the direct cause") else "context"
+            parts.append({"type": tname, "frames": frames, "link": link})
+        # the separator after part k says how part k+1 refers to part k: store it on the referring part
+        chain = []
+        for k, prt in enumerate(parts):
+            chain.append({"type": prt["type"], "frames": prt["frames"], "link": parts[k - 1]["link"] if k > 0 else None})
+        return {"type": type(e).__name__, "message": str(e), "chain": chain}, text
+    return {"type": None, "message": None, "chain": []}, ""
 
 
 # ------------------------------------------------------------------------------------------
@@ -304,7 +388,7 @@ class C18(ModelCheck):
         "stop later occurrences, never disturb the healthy file; a load-time fault leaves exactly that file unloaded. "
         "Non-trivial = fault at depth >= 2 or in a non-function entry point; distinct by case content."
     )
-    assumptions = ["column markers and the <module> label are presentation and not compared", "CPython's traceback of the same source is the reference for (function, line)"]
+    assumptions = ["column markers and the <module> label are presentation and not compared", "CPython's traceback of the same sources is the reference for (file, function, line) and for the chain of causes / contexts"]
 
     def n_random(self, tier):
         return {"quick": 4000, "thorough": 120000}[tier]
@@ -354,11 +438,17 @@ class C18(ModelCheck):
         res.mismatch(self.bucket(c, r), c, expected=r["expected"], observed=r["observed"], detail=r.get("detail"))
 
     async def run_a(self, c):
-        et, em, ef = cpython_frames(c["src"])
-        pt, pm, pf, text = await pyscript_frames(c["src"])
-        exp = {"type": et, "message": em, "frames": [list(x) for x in ef[1:]], "module_line": ef[0][1] if ef else None}
-        obs = {"type": pt, "message": pm, "frames": [list(x) for x in pf[1:]], "module_line": pf[0][1] if pf else None}
-        return {"expected": exp, "observed": obs, "nontrivial": c["meta"]["depth"] >= 2, "classes": ["attribution", "fault-" + c["meta"]["fault"]], "detail": {"formatted": text[-1500:]}}
+        use_mod = bool(c["meta"].get("mod"))
+        exp = cpython_report(c["src"], use_mod)
+        obs, text = await pyscript_report(c["src"], use_mod)
+        classes = ["attribution", "fault-" + c["meta"]["fault"]]
+        if use_mod and any(f[0] == MOD_FNAME for prt in exp["chain"] for f in prt["frames"]):
+            classes.append("module-frames")
+        if len(exp["chain"]) > 1:
+            classes.append("chained")
+        if c["meta"].get("recurse"):
+            classes.append("recursion")
+        return {"expected": exp, "observed": obs, "nontrivial": c["meta"]["depth"] >= 2, "classes": classes, "detail": {"formatted": text[-1800:]}}
 
     def run(self, case):
         if case["part"] == "A":
@@ -375,20 +465,49 @@ class C18(ModelCheck):
     def bucket(self, case, r):
         if case["part"] == "A":
             e, o = r["expected"], r["observed"]
-            what = "type" if e["type"] != o["type"] else "message" if e["message"] != o["message"] else "module-line" if e["module_line"] != o["module_line"] else "frames"
-            return "attribution|" + what + ("|deco" if case["meta"]["deco"] else "")
+            if e["type"] != o["type"]:
+                what = "type"
+            elif e["message"] != o["message"]:
+                what = "message"
+            elif [(x["type"], x["link"]) for x in e["chain"]] != [(x["type"], x["link"]) for x in o["chain"]]:
+                what = "chain"
+            elif [[f[0] for f in x["frames"]] for x in e["chain"]] != [[f[0] for f in x["frames"]] for x in o["chain"]]:
+                what = "frame-files"
+            else:
+                what = "frames"
+            return "attribution|" + what + ("|deco" if case["meta"]["deco"] else "") + ("|recurse" if case["meta"].get("recurse") else "")
         return "containment|" + case["entry"] + "|" + ("legacy" if case["legacy"] else "new") + "|" + ",".join(r["observed"])
 
     def attribute(self, case, r):
+        """Known deviations, each recognised by the exact transformation of CPython's report that yields the observed one."""
+        if case["part"] != "A":
+            return None
         ids = {f["id"] for f in core.open_findings(PROP)}
-        if case["part"] == "A" and "C18-decorator-wrapper-frame-missing" in ids and case["meta"]["deco"]:
-            e, o = r["expected"], r["observed"]
-            if e["type"] == o["type"] and e["message"] == o["message"] and e["module_line"] == o["module_line"]:
-                # the only difference: the user decorator's wrapper frame is absent / merged
-                ef = [f for f in e["frames"] if f[0] != "wrapper"]
-                of = [f for f in o["frames"] if f[0] != "wrapper"]
-                if [x[1] for x in ef] == [x[1] for x in of]:
-                    return "C18-decorator-wrapper-frame-missing"
+        e, o = r["expected"], r["observed"]
+        if e["type"] != o["type"] or e["message"] != o["message"] or len(e["chain"]) != len(o["chain"]):
+            return None
+        if [(x["type"], x["link"]) for x in e["chain"]] != [(x["type"], x["link"]) for x in o["chain"]]:
+            return None
+        used = set()
+
+        def transform(frames, first_part):
+            fr = [list(f) for f in frames]
+            if "C18-decorator-wrapper-frame-named-after-decorated-function" in ids and case["meta"]["deco"] and any(f[1] == "wrapper" for f in fr):
+                # the wrapper is reported under the name it is bound to (the decorated function f1)
+                fr = [[f[0], "f1", f[2]] if f[1] == "wrapper" else f for f in fr]
+                used.add("C18-decorator-wrapper-frame-named-after-decorated-function")
+            if first_part and "C18-chained-part-frame-labelled-with-context" in ids and fr and fr[0][0] == FNAME and fr[0][1] != "<module>":
+                fr[0][1] = "<module>"
+                used.add("C18-chained-part-frame-labelled-with-context")
+            return fr
+
+        n = len(e["chain"])
+        for k in range(n):
+            if transform(e["chain"][k]["frames"], k < n - 1) != o["chain"][k]["frames"]:
+                return None
+        for fid in ("C18-chained-part-frame-labelled-with-context", "C18-decorator-wrapper-frame-named-after-decorated-function"):
+            if fid in used:
+                return fid
         return None
 
 
